@@ -760,14 +760,19 @@ def probe_affine_inter(ctx, d):
         raise
 
 def quick_configs(rng):
-    """the suite's configuration + 4 seed-chosen ones; always one affine, one with 8-bit digits (so that the comb /
-    window code really runs on the 8-bit curves instead of the 'dont know how to mult' fall-back) and one JOINT"""
+    """the suite's configuration + 4 seed-chosen ones.  Whatever the seed: one affine build, one with 8-bit digits (so that
+    the comb / window code really runs on the 8-bit curves instead of the 'dont know how to mult' fall-back), one JOINT,
+    one FXP_UNKPT, and every fixed-point and every unknown-point algorithm in at least one of the five builds."""
     cfgs = [dict(SUITE)]
-    forced = [dict(proj=0, twin=rng.choice([0, 1, 2])), dict(digit=8, proj=1), dict(twin=2), {}]
+    forced = [dict(proj=0, fxp=3, unk=2, twin=rng.choice([0, 1, 2])),        # affine; COMB_1T / SLIDING_WIN
+              dict(digit=8, proj=1, fxp=2, unk=4),                           # 8-bit digits; SLIDING_WIN / COMB_2T
+              dict(proj=1, fxp=1, unk=rng.choice([0, 5]), twin=2),           # PRECALC_DBL / BIN or SAME_AS_FXP; JOINT
+              dict(proj=1, fxp=0, unk=1, twin=1)]                            # BIN / PRECALC_DBL; FXP_UNKPT
     for fz in forced:
-        for _ in range(2000):
+        for _ in range(5000):
             c = random_cfg(rng); c.update(fz)
-            if eff(c)["unk_eff"] in TABLE_ALGOS and eff(c)["unkw_eff"] >= 8: continue      # 2^w table per call: thorough tier
+            e = eff(c)
+            if e["unk_eff"] in TABLE_ALGOS and (e["unkw_eff"] >= 8 or e["unkw_eff"] > c["fxpw"]): continue   # thorough tier
             if cfg_valid(c) and c not in cfgs:
                 cfgs.append(c); break
     return cfgs
